@@ -332,7 +332,7 @@ def d4(cx: Cx, ob: Ob) -> None:
     if any(callee_name(c) in ("sorted", "reversed", "sort", "reverse") for c, _, _ in s.calls() if any(op(x) == "new" for x in subterms(c))):
         ob.violate(fn.qualname, fn.where, "rows are re-ordered before writing", detail="row-order")
     # the header row is taken out of the data exactly when `header` is set
-    hb = [ev for ev, _ in s.walk() if ev.kind == "bind" and ev.a == "_header"]
+    hb = [ev for ev, _ in s.walk() if ev.kind == "bind" and ev.a == "_header" and not is_const(ev.b, None)]
     for ev in hb[:1]:
         v = ev.b
         okh = op(v) == "ifexp" and v[1] == ("param", "header") and callee_name(v[2]) == "next" and is_const(v[3], None)
@@ -363,6 +363,14 @@ def d4(cx: Cx, ob: Ob) -> None:
                 for x in subterms(c):
                     if op(x) == "new" and any(any(y == n for y in subterms(x)) for n in nexts):
                         flows = True
+        if not flows:
+            # the header may be put in front of the collected rows before one writerows(...)
+            for c, ev, ctx in s.calls():
+                if callee_name(c) == "insert" and len(c[2]) == 2 and is_const(c[2][0], 0) and any(any(y == n for y in subterms(c[2][1])) for n in nexts):
+                    flows = True
+                elif callee_name(c) in ("append", "extend", "insert") and any(any(y == n for y in subterms(a)) for a in c[2] for n in nexts):
+                    ob.undecide("the header row is added to the output rows in a position that is not recognisably the front")
+                    flows = True
         if flows:
             ob.site(f"{fn.where} {fn.qualname}", "header row reaches a write call")
         elif nexts:
